@@ -64,6 +64,10 @@ Proof. reflexivity. Qed.
 Example f64_eq_zeros : f64_eq 0 9223372036854775808 = true.
 Proof. reflexivity. Qed.
 
+Global Opaque f64_eq f32_eq.
+Local Arguments Z.eqb : simpl never.
+Local Arguments N.eqb : simpl never.
+
 (** * "The same value" *)
 
 (** [tv_equiv a b]: the two messages denote the same value -- identical, or
@@ -133,7 +137,6 @@ Proof.
       intros x y Hx Hy. rewrite Forall_forall in IH. apply IH; auto.
       eapply okpair_elems; eauto.
     + destruct Hok as [->|[H1 H2]]; cbn in *; [|discriminate].
-      destruct (Nat.eqb (List.length ae) 0); cbn; eauto.
       destruct ae; cbn; eauto.
 Qed.
 
@@ -148,26 +151,28 @@ Lemma equal_elems_sym (eq : tv -> tv -> outcome bool) ae be :
   equal_elems eq ae be = equal_elems eq be ae.
 Proof.
   revert be; induction ae as [|x ae IH]; intros [|y be] Hl Hf; cbn in *; try discriminate; auto.
-  rewrite (Hf x y) by auto. destruct (eq y x) as [[|]| |]; auto.
-  apply IH; [lia|]. intros; apply Hf; cbn; auto.
+  rewrite (Hf x y) by auto. destruct (eq y x) as [[|]| |]; auto;
+  try (apply IH; [lia|]; intros; apply Hf; cbn; auto).
 Qed.
 
 Lemma equal_gen_sym d a : forall b, okpair d a b -> equal_gen d a b = equal_gen d b a.
 Proof.
   induction a as [a Hnl|ae IH] using tv_ind'; intros b Hok.
   - destruct a; try (exfalso; eapply Hnl; reflexivity); destruct b; cbn; auto;
-      try (f_equal; first [apply String.eqb_sym|apply Z.eqb_sym|apply N.eqb_sym|apply bool_eqb_sym
-                          |apply f64_eq_sym|apply f32_eq_sym]);
+      try (f_equal;
+           match goal with
+           | |- String.eqb _ _ = _ => apply String.eqb_sym
+           | |- Z.eqb _ _ = _ => apply Z.eqb_sym
+           | |- N.eqb _ _ = _ => apply N.eqb_sym
+           | |- Bool.eqb _ _ = _ => apply bool_eqb_sym
+           | |- f64_eq _ _ = _ => apply f64_eq_sym
+           | |- f32_eq _ _ = _ => apply f32_eq_sym
+           end);
       try (destruct Hok as [->|[H1 H2]]; cbn in *; auto; discriminate).
-    + f_equal. now rewrite (Z.eqb_sym digits), (N.eqb_sym precision).
-    + destruct Hok as [->|[H1 H2]]; cbn in *; [|discriminate].
-      now rewrite (Z.eqb_sym digits), (N.eqb_sym precision).
-    + destruct Hok as [->|[H1 H2]]; cbn in *; [|discriminate].
-      now rewrite (Z.eqb_sym digits), (N.eqb_sym precision).
-    + destruct Hok as [->|[H1 H2]]; cbn in *; [|discriminate].
-      destruct (Nat.eqb (List.length l) 0) eqn:E; cbn.
-      * destruct l; cbn in *; [reflexivity|discriminate].
-      * destruct l; cbn in *; [discriminate|reflexivity].
+    all: try (f_equal; f_equal; [apply Z.eqb_sym|apply N.eqb_sym]).
+    all: destruct Hok as [->|[H1 H2]]; cbn in *; try discriminate.
+    all: try (f_equal; f_equal; [apply Z.eqb_sym|apply N.eqb_sym]).
+    all: try (destruct l; cbn; reflexivity).
   - cbn. destruct b; cbn; auto.
     + rewrite (Nat.eqb_sym (List.length ae)).
       destruct (Nat.eqb (List.length l) (List.length ae)) eqn:El; cbn; auto.
@@ -189,33 +194,29 @@ Proof.
   - constructor.
   - destruct (eq x y) as [[|]| |] eqn:E; try discriminate. intros H. constructor.
     + apply Hf; auto.
-    + apply IH; auto. intros; apply Hf; cbn; auto.
+    + apply IH; auto; intros; apply Hf; cbn; auto.
 Qed.
+
+Ltac eqb_to_eq :=
+  repeat match goal with
+  | H : Ok _ = Ok _ |- _ => inversion H; clear H
+  | H : andb _ _ = true |- _ => apply andb_true_iff in H as [? ?]
+  | H : orb _ _ = true |- _ => apply orb_true_iff in H as [H|H]
+  | H : String.eqb _ _ = true |- _ => apply String.eqb_eq in H
+  | H : Z.eqb _ _ = true |- _ => apply Z.eqb_eq in H
+  | H : N.eqb _ _ = true |- _ => apply N.eqb_eq in H
+  | H : Bool.eqb _ _ = true |- _ => apply Bool.eqb_prop in H
+  | H : Nat.eqb _ _ = true |- _ => apply Nat.eqb_eq in H
+  | H : f64_eq _ _ = true |- _ => apply f64_eq_true in H as (_ & _ & [H|[? ?]])
+  | H : f32_eq _ _ = true |- _ => apply f32_eq_true in H as (_ & _ & [H|[? ?]])
+  end; subst.
 
 Lemma equal_gen_sound d a : forall b, equal_gen d a b = Ok true -> tv_equiv a b.
 Proof.
   induction a as [a Hnl|ae IH] using tv_ind'; intros b.
   - destruct a; try (exfalso; eapply Hnl; reflexivity); destruct b; cbn; try discriminate;
-      try (destruct d; discriminate).
-    + intros H; inversion H as [H']. apply String.eqb_eq in H' as ->. constructor.
-    + intros H; inversion H as [H']. apply Z.eqb_eq in H' as ->. constructor.
-    + intros H; inversion H as [H']. apply N.eqb_eq in H' as ->. constructor.
-    + intros H; inversion H as [H']. apply Bool.eqb_prop in H' as ->. constructor.
-    + intros H; inversion H as [H']. apply String.eqb_eq in H' as ->. constructor.
-    + intros H; inversion H as [H']. apply f32_eq_true in H' as (_ & _ & [->|[Hz1 Hz2]]); now constructor.
-    + intros H; inversion H as [H']. apply f64_eq_true in H' as (_ & _ & [->|[Hz1 Hz2]]); now constructor.
-    + intros H; inversion H as [H']. apply andb_true_iff in H' as [H1 H2].
-      apply Z.eqb_eq in H1 as ->. apply N.eqb_eq in H2 as ->. constructor.
-    + destruct d; cbn; try discriminate. intros H; inversion H as [H'].
-      apply andb_true_iff in H' as [H1 H2].
-      apply Z.eqb_eq in H1 as ->. apply N.eqb_eq in H2 as ->. constructor.
-    + destruct d; cbn; try discriminate. intros H; inversion H as [H'].
-      apply andb_true_iff in H' as [H1 H2].
-      apply Z.eqb_eq in H1 as <-. apply N.eqb_eq in H2 as <-. constructor.
-    + destruct d; cbn; try discriminate. intros _. constructor.
-    + destruct d; cbn; try discriminate. intros H; inversion H as [H'].
-      destruct l; cbn in *; [constructor|discriminate].
-    + destruct d; cbn; try discriminate. intros _. constructor.
+      try (destruct d; cbn; try discriminate); intros H; eqb_to_eq; try (now constructor).
+    all: try (destruct l; cbn in *; [now constructor|discriminate]).
   - cbn. destruct b; cbn; try discriminate.
     + destruct (Nat.eqb (List.length ae) (List.length l)) eqn:El; cbn; try discriminate.
       apply Nat.eqb_eq in El. intros H. apply EqvList.
@@ -239,6 +240,12 @@ Proof. reflexivity. Qed.
 Lemma equal_not_sym_on_nil :
   equal_gen true (TVDouble 4607182418800017408) TVnil <> equal_gen true TVnil (TVDouble 4607182418800017408).
 Proof. cbn. discriminate. Qed.
+
+Lemma equal_total_refuted : exists a b w, equal_gen true a b = Panic w.
+Proof. exists (TVDouble 4607182418800017408), TVnil, panic_nil_deref. reflexivity. Qed.
+
+Lemma equal_sym_refuted : exists a b, equal_gen true a b <> equal_gen true b a.
+Proof. exists (TVDouble 4607182418800017408), TVnil. exact equal_not_sym_on_nil. Qed.
 
 (** * FromScalar / ToScalar *)
 
@@ -358,6 +365,9 @@ Qed.
 
 Lemma to_scalar_panics_on_nil jv : to_scalar_gen true jv TVnil = Panic panic_nil_deref.
 Proof. reflexivity. Qed.
+
+Lemma to_scalar_total_refuted : exists jv t w, to_scalar_gen true jv t = Panic w.
+Proof. exists (fun _ => true), TVnil, panic_nil_deref. reflexivity. Qed.
 
 (** * widen32 is exact: the float64 denotes the same number *)
 
